@@ -237,6 +237,12 @@ func checkLeak(lc *LeakCase, res *vprop.Result) {
 		if hasNonStringMap(&c.T) {
 			res.Label("map-with-non-string-key")
 		}
+		if hasDup(&c.T) {
+			res.Label("pointer-reachable-twice")
+		}
+		if hasSpelledTag(&c.T) {
+			res.Label("secure-tag-spelled-differently")
+		}
 	}
 	for e := range edgeSet {
 		res.Label("edge:" + e)
